@@ -161,7 +161,11 @@ def oriented_bounds(obj, angle_digits=1, ordered=True, normal=None, coplanar_tol
             # plane normal so the transform is a proper rotation
             vh[2] *= -1.0
         points_2d = np.matmul(points_demeaned, vh.T)
-        if np.any(np.abs(points_2d[:, 2]) > coplanar_tol):
+        # the distance from the plane that rounding alone produces
+        # grows with the magnitude of the coordinates: three points
+        # are always coplanar but at 1e5 they are 1e-11 off their plane
+        magnitude = max(1.0, float(np.abs(points).max()))
+        if np.any(np.abs(points_2d[:, 2]) > coplanar_tol * magnitude):
             raise ValueError("Points must be coplanar")
 
         # Construct a homogeneous matrix representing the transformation above
